@@ -5,7 +5,7 @@ import json
 from .. import corr
 from ..synth import Synth, NAMES, FAILS, UNRESOLVABLE, PKG
 
-STREAMS = ["trees"]
+STREAMS = ["trees", "pipeline-elements"]
 RULE = ("random trees of mappings, lists and scalars (depth <= 6, fan-out <= 5; thorough deeper) with __type__ nodes "
         "at random positions, factories = function, submodule function, class, nested attribute, raising factory, "
         "non-callable attribute, module objects, unresolvable names (no module / no attribute / nested), non-string "
@@ -84,7 +84,61 @@ def canon(v, Obj):
     return {"?": repr(v)}
 
 
+def impl_pipeline(case):
+    """the same translation as it runs inside a pipeline section (PipelineTranslator): every element is a
+    __type__ mapping; an element receives its successor as `target`, nothing nested inside it does"""
+    from cobald.daemon.config.mapping import ConfigurationError
+    from cobald.daemon.core.config import PipelineTranslator
+    mod = CTX["mod"]
+    del mod.LOG[:]
+    structure = {"pipeline": [to_py(e) for e in case["elems"]]}
+    try:
+        res = PipelineTranslator().translate_hierarchy(structure)
+        out = {"ok": canon(res, mod.Obj)}
+    except ConfigurationError as e:
+        out = {"err": e.where}
+    except Exception as e:
+        out = {"raised": type(e).__name__}
+    out["log"] = [[None, fid, [canon(a, mod.Obj) for a in args], [[k, canon(v, mod.Obj)] for k, v in kw.items()]]
+                  for fid, args, kw in mod.LOG]
+    return out
+
+
+def oracle_pipeline(case, o):
+    log = []
+    try:
+        prev, items = None, []
+        for i in reversed(range(len(case["elems"]))):
+            e = case["elems"][i]
+            extra = [] if prev is None else [["target", prev]]
+            prev = ref_eval(e, "[%d]" % i, log, extra)
+            items.append(prev)
+        exp = {"ok": {"l": list(reversed(items))}}
+    except Fail as f:
+        exp = {"err": f.path}
+    out = []
+    got = {k: v for k, v in o.items() if k not in ("log", "extra")}
+    if got != exp:
+        out.append(("pipeline-element-translation", "translated %r, independent evaluation gives %r" % (got, exp)))
+    elif [c[1:] for c in o["log"]] != [c[1:] for c in log]:
+        out.append(("pipeline-element-calls", "factory calls %r, expected %r" % ([c[1:] for c in o["log"]], [c[1:] for c in log])))
+    return out
+
+
+def gen_pipeline(rng):
+    ok = [n for n, f in NAMES.items() if f not in FAILS]
+    elems = []
+    for _ in range(rng.randint(1, 4)):
+        m = [[k, gen_tree(rng, rng.randint(0, 3))] for k in rng.sample(KEYS, rng.randint(0, 3))]
+        m.append(["__type__", {"s": rng.choice(ok)}])
+        rng.shuffle(m)
+        elems.append({"m": m})
+    return {"mode": "pipeline", "elems": elems}
+
+
 def impl(case):
+    if case.get("mode") == "pipeline":
+        return impl_pipeline(case)
     from cobald.daemon.config.mapping import Translator, ConfigurationError
     mod = CTX["mod"]
     del mod.LOG[:]
@@ -133,6 +187,8 @@ def renumber(out):
 
 
 def line(case, o):
+    if case.get("mode") == "pipeline":
+        return None        # judged by the independent evaluation only (the pipeline walk itself is C05's model)
     return {"cfg": case["cfg"], "names": [[n, f] for n, f in NAMES.items()], "fails": FAILS}
 
 
@@ -152,7 +208,7 @@ class Fail(Exception):
         self.path = path
 
 
-def ref_eval(c, path, log):
+def ref_eval(c, path, log, extra=()):
     if "s" in c or "n" in c:
         return c
     if "l" in c:
@@ -160,7 +216,7 @@ def ref_eval(c, path, log):
         for i in reversed(range(len(c["l"]))):
             out[i] = ref_eval(c["l"][i], "%s[%s]" % (path, i), log)
         return {"l": out}
-    items = [[k, ref_eval(v, "%s.%s" % (path, k), log)] for k, v in c["m"]]
+    items = [[k, ref_eval(v, "%s.%s" % (path, k), log)] for k, v in c["m"]] + [list(x) for x in extra]
     d = dict((k, v) for k, v in items)
     if "__type__" not in d:
         return {"m": items}
@@ -185,6 +241,8 @@ def count_types(c):
 
 
 def oracle(case, o):
+    if case.get("mode") == "pipeline":
+        return oracle_pipeline(case, o)
     log = []
     try:
         exp = {"ok": ref_eval(case["cfg"], "", log)}
@@ -206,10 +264,14 @@ def oracle(case, o):
 
 
 def nontrivial(case, o):
+    if case.get("mode") == "pipeline":
+        return sum(count_types(e) for e in case["elems"]) >= 2
     return count_types(case["cfg"]) >= 2
 
 
 def shrinks(case):
+    if case.get("mode") == "pipeline":
+        return
     def subs(c):
         if "l" in c:
             for i in range(len(c["l"])):
@@ -234,6 +296,9 @@ def run(ctx):
         corr.run_stream(ctx, "trees", cases, impl, line, oracle, nontrivial, shrinks, expect)
         for c in cases:
             ctx.tally("types=%d" % min(count_types(c["cfg"]), 6))
+        rng = ctx.rng("pipeline")
+        cases = [gen_pipeline(rng) for _ in range(ctx.n(800, 8000))]
+        corr.run_stream(ctx, "pipeline-elements", cases, impl, line, oracle, nontrivial, None, expect)
 
 
 def replay(payload):
